@@ -1132,9 +1132,13 @@ where
                     let _ = done.send(result);
                     return true; // signal batch_processor to exit — disk state is corrupted
                 }
-                if max_idx > 0 {
-                    *pending_max = (*pending_max).max(max_idx);
-                }
+                // Everything from truncate_from on was replaced and is not fsynced yet: neither the
+                // fsync watermark nor durable_index may stay above the truncation point, or entries
+                // appended later at or below the stale value are never persisted and flush()
+                // short-circuits.
+                let below = truncate_from.saturating_sub(1);
+                *pending_max = (*pending_max).min(below).max(max_idx);
+                this.durable_index.fetch_min(below, Ordering::AcqRel);
                 let _ = done.send(result);
                 false
             }
